@@ -92,8 +92,8 @@ type Tagged struct {
 
 // embedded structs: promoted fields are NOT reachable by pointerstructure (only direct fields)
 type Creds struct {
-	Token  string `bexpr:"-" json:"-"`
-	APIKey string `bexpr:"key" json:"jkey"`
+	Token  string `bexpr:"-" json:"-" étiq:"-"`
+	APIKey string `bexpr:"key" json:"jkey" étiq:"ukey"`
 	Owner  string
 }
 
@@ -107,10 +107,11 @@ type HiddenHolder struct {
 	Vis    int
 	Secret string `bexpr:"-"`
 	AltSec string `json:"-"`
+	UniSec string `étiq:"-"`
 	priv   map[string]int
 	Nest   *HiddenHolder
 	List   []HiddenHolder
-	Tagged string `bexpr:"vis2" json:"jvis2"`
+	Tagged string `bexpr:"vis2" json:"jvis2" étiq:"uvis2"`
 }
 
 var scalarTypes = []reflect.Type{
